@@ -170,16 +170,60 @@ func c182(c *an.Ctx, p *an.Prog) {
 		})
 		c.Check(len(bad) == 0, "C18.2", fnKey(fc)+"|fields-from-config", p.Pos(fc.Pos()), "Dir.BaseDir and Dir.Default are the decoded basedir/default", strings.Join(uniqS(bad), "; "))
 	}
-	// per-iteration paths
-	hdrs := loopHeaders(fc)
-	if len(hdrs) != 1 {
-		c.Undecided("C18.2", fnKey(fc)+"|loop", p.Pos(fc.Pos()), fmt.Sprintf("UNRESOLVED: expected one loop over the parameter sets, found %d", len(hdrs)))
+	// per-iteration paths: the loop over the parameter sets is in the loader itself or in a helper it calls (the helper
+	// is interpreted inline in the loader's own paths above; its loop is analysed where it stands)
+	owner, hdrs := registrationLoop(p, fc)
+	if owner == nil || len(hdrs) != 1 {
+		c.Undecided("C18.2", fnKey(fc)+"|loop", p.Pos(fc.Pos()), fmt.Sprintf("UNRESOLVED: expected one loop registering the parameter sets in the loader or its helpers, found %d", len(hdrs)))
 		return
 	}
 	bad = nil
+	if owner != fc {
+		// the map filled by the helper's loop is what the loader installs, and only on success
+		var filled *an.Term
+		an.EnumPathsTo(owner, hdrs[0], nil, hdrs[0], func(s *an.PathState) {
+			for _, e := range s.Events {
+				if e.Kind == "mapupdate" {
+					filled = e.Args[0]
+				}
+			}
+		})
+		an.EnumPaths(owner, nil, nil, func(s *an.PathState) {
+			ret := lastReturn(s)
+			if ret == nil || len(ret.Args) != 2 || filled == nil {
+				return
+			}
+			if s.IsNil(ret.Args[1]) || ret.Args[1].IsConst("nil") {
+				if ret.Args[0].K != filled.K {
+					bad = append(bad, fnKey(owner)+" returns "+ret.Args[0].K+" on success, not the map its loop fills")
+				}
+			}
+		})
+		nInst := 0
+		an.EnumPaths(fc, nil, nil, func(s *an.PathState) {
+			ret := lastReturn(s)
+			isAcc := ret != nil && ret.Args[0].IsConst("nil")
+			for _, e := range s.Events {
+				if e.Kind == "store" && e.Args[0].Op == "fieldaddr" && e.Args[0].Aux == "Params" && e.Args[0].Args[0].Op == "param" {
+					if !isAcc {
+						bad = append(bad, "Dir.Params is replaced on a failing path "+s.BlockPath())
+					}
+					if filled == nil || !strings.HasSuffix(e.Args[1].K, filled.K) || !strings.Contains(e.Args[1].K, an.FnName(owner)) {
+						bad = append(bad, "Dir.Params is set to "+e.Args[1].K+", not to the map filled by "+fnKey(owner))
+					} else if isAcc {
+						nInst++
+					}
+				}
+			}
+		})
+		if nInst == 0 {
+			bad = append(bad, "no accepting path installs the map filled by "+fnKey(owner)+" as Dir.Params")
+		}
+	}
 	nIter := 0
 	algos := map[string]bool{}
-	an.EnumPathsTo(fc, hdrs[0], nil, hdrs[0], func(s *an.PathState) {
+	fcLoop := owner
+	an.EnumPathsTo(fcLoop, hdrs[0], nil, hdrs[0], func(s *an.PathState) {
 		if s.StopBlock == nil {
 			return
 		}
@@ -207,7 +251,7 @@ func c182(c *an.Ctx, p *an.Prog) {
 		for _, e := range s.Events {
 			if e.Kind == "mapupdate" {
 				nUpd++
-				cc, i := e.Args[2].CallOf()
+				cc, i := e.Args[2].StripConv().CallOf()
 				if cc == nil || i != 0 || !(cc.Aux == storePkg+".NewScryptAuthHasher" || cc.Aux == storePkg+".NewArgon2IDHasher") {
 					bad = append(bad, "registered hasher is not a constructor result: "+e.Args[2].K)
 					continue
@@ -720,4 +764,46 @@ func reachesStatic(p *an.Prog, fn *ssa.Function, name string, depth int) bool {
 		return false
 	}
 	return walk(fn, depth)
+}
+
+// registrationLoop finds the function holding the loop that registers the parameter sets (a loop some iteration of
+// which updates a map): the loader itself, or a module function it reaches through static calls (depth <= 3).
+func registrationLoop(p *an.Prog, fc *ssa.Function) (*ssa.Function, []*ssa.BasicBlock) {
+	seen := map[*ssa.Function]bool{}
+	var owner *ssa.Function
+	var hdrs []*ssa.BasicBlock
+	var walk func(f *ssa.Function, d int)
+	walk = func(f *ssa.Function, d int) {
+		if f == nil || seen[f] || d > 3 || !p.InRepo(f) {
+			return
+		}
+		seen[f] = true
+		for _, h := range loopHeaders(f) {
+			upd := false
+			an.EnumPathsTo(f, h, nil, h, func(s *an.PathState) {
+				for _, e := range s.Events {
+					if e.Kind == "mapupdate" {
+						upd = true
+					}
+				}
+			})
+			if upd {
+				if owner != nil && owner != f {
+					hdrs = append(hdrs, h) // two owners: reported through the count
+					continue
+				}
+				owner = f
+				hdrs = append(hdrs, h)
+			}
+		}
+		for _, b := range f.Blocks {
+			for _, in := range b.Instrs {
+				if ci, ok := in.(ssa.CallInstruction); ok {
+					walk(ci.Common().StaticCallee(), d+1)
+				}
+			}
+		}
+	}
+	walk(fc, 0)
+	return owner, hdrs
 }
